@@ -163,9 +163,9 @@ class BlockNode(Node):
         assert isinstance(self.token, TagToken)
         required = " required" if self.required else ""
         return (
-            f"{{%{self.token.wc[0]} block {self.name}{required} {self.token.wc[1]}%}}"
+            f"{{%{self.token.wc[0]} block {self.name.as_source()}{required} {self.token.wc[1]}%}}"
             f"{self.block}"
-            f"{{%{self.end_tag_token.wc[0]} endblock {self.name} "
+            f"{{%{self.end_tag_token.wc[0]} endblock {self.name.as_source()} "
             f"{self.end_tag_token.wc[1]}%}}"
         )
 
